@@ -78,8 +78,16 @@ def vf : P String := do
   let vd := vd.failIf (v.isEmpty || (vlist v 0).isEmpty) s!"{comp} empty_value_function"
   let bad := match v with | [] => none | v0 :: rest => checkLevels m v0 rest
   let vd := match bad with
-    | some (h, what, dev) => vd.failIf true s!"{comp} {what} horizon={h} dev={qstr dev}"
+    | some (h, what, dev) =>
+      -- `qmdp_consistent_partial`: with VI horizon 1 QMDP's value function IS a plan; a break there is not the open finding
+      let what := if comp == "QMDP" && _hReq ≤ 1 && what == "not_one_step_plan" then "not_one_step_plan_h1" else what
+      vd.failIf true s!"{comp} {what} horizon={h} dev={qstr dev}"
     | none => vd
+  -- QMDP::fromQFunction: one entry per action, tagged with it, O links to the single horizon-0 entry (holds at every VI horizon)
+  let vd := if comp == "QMDP" && H == 1 then
+      vd.failIf (top.length != m.A || !((top.zipIdx).all (fun (e, a) => e.action == a && e.obs == List.replicate m.O 0)))
+        "QMDP entries_not_one_per_action"
+    else vd
   let shapeOK := bad.isNone || (match bad with | some (_, w, _) => w == "not_one_step_plan" | none => true)
   -- (2) Policy replay over all observation histories (component = Policy)
   let mseq := (List.range top.length).flatMap (fun id => replayAll m.O v H id)
@@ -237,7 +245,11 @@ def condBest (S : Nat) (c : Cond) (rt : Bool) (b : Nat → Rat) (l : VList) : Co
   | _ =>
     let r := bestAtPoint S b l
     let be := entryAt l r.1
-    l.foldl (fun c e => if e.values == be.values then c else c.note rt r.2 (dot S b (val e))) c
+    -- an entry with the SAME vector but another action / other links is a tie as well: doubles reproduce it only when the
+    -- vectors are bit-exact (two actions' cross-sums may round differently), otherwise which duplicate wins is fragile
+    l.foldl (fun c e =>
+      if e.values == be.values then (if e == be || rt then c else { c with ties := c.ties + 1, fragile := true })
+      else c.note rt r.2 (dot S b (val e))) c
 
 /-- decisions of `crossSumBestAtBelief(b, projs[a], a)` for one action -/
 def condRow (m : Pomdp) (prev : VList) (c : Cond) (rt : Bool) (b : Nat → Rat) (a : Nat) : Cond :=
@@ -432,6 +444,28 @@ def pbviw : P String := do
   let ebs := if expl then bs else (List.range m.S).map (fun s => (List.range m.S).map (fun i => if i = s then (1 : Rat) else 0))
   return wholeRun "PBVI" m ebs vs mvs cond (if expl then "pbviw" else "pbviw generated_beliefs")
 
+/-- `ip pomdp prev | level | walked nCalls {in out}*` : one IncrementalPruning timestep against `ipStep`, the Pruner being the
+    oracle whose answers the harness logged along the library's own loop (looked up by input list) -/
+def ip : P String := do
+  let m ← pomdpP; let prev ← vlistP; P.bar
+  let level ← vlistP; P.bar
+  let walked ← P.bool; let n ← P.nat
+  let calls ← P.rep (do let i ← vlistP; let o ← vlistP; pure (i, o)) n; P.eof
+  let vd : Verdict := { tag := "ip" }
+  -- property clauses on the implementation's own level
+  let vd := match checkLevels m prev [level] with
+    | some (_, what, dev) => vd.failIf true s!"IncrementalPruning {what} dev={qstr dev}"
+    | none => vd
+  -- every logged Pruner answer keeps whole entries of its input (pruner_moves_whole_entries)
+  let vd := vd.failIf (!(calls.all (fun c => subMultiset c.2 c.1))) "Pruner entries_not_moved_whole"
+  if !vd.fails.isEmpty then return vd.render
+  -- misses are counted through a sentinel: an input list the library never handed to its Pruner comes back untouched
+  let pr := fun (l : VList) => match calls.find? (fun c => sameVList c.1 l) with | some c => c.2 | none => l
+  let mlevel := ipStep m pr prev
+  if sameVList mlevel level then return ({ vd with tag := if walked then "ip" else "ip unwalked" }).render
+  if !walked then return (vd.diffIf true s!"IncrementalPruning replay_diverged the library's level is not what its own loop, walked with its own kernels, produces").render
+  return (vd.diffIf true s!"IncrementalPruning model_differs sizes model={mlevel.length} impl={level.length}").render
+
 /-- `mk S A O | vf | vf` : `makeValueFunction(S)` and the value function of `Policy(S, A, O)` are the model's `zeroVF S` -/
 def mk : P String := do
   let S ← P.nat; let _A ← P.nat; let _O ← P.nat; P.bar
@@ -455,6 +489,7 @@ def handle (toks : List String) : String :=
     | "pbvi" :: rest => P.run pbvi rest
     | "pbviw" :: rest => P.run pbviw rest
     | "mk" :: rest => P.run mk rest
+    | "ip" :: rest => P.run ip rest
     | "wv" :: rest => P.run wv rest
     | "perseus" :: rest => P.run perseus rest
     | "ls" :: rest => P.run ls rest
